@@ -86,6 +86,11 @@ func msgEqualToks(a, b []string) bool {
 func msgDecCase(c *Ctx, fl msgFlavour, id string, b []byte, limit int) {
 	defer func() {
 		if r := recover(); r != nil {
+			if fl.slow && strings.Contains(fmt.Sprint(r), "cannot convert nil to map key") && msgFB4Class(fl.md, b) {
+				c.Known("FB4", "C03", "reflection path panics: map key clobbered by a wrong-wire-type occurrence")
+				c.Stat("known_FB4")
+				return
+			}
 			c.PropFail("C03", fmt.Sprintf("panic in Unmarshal (%s %s): %v", fl.name, fl.md.FullName(), r), HexB(b))
 		}
 	}()
@@ -382,6 +387,18 @@ func msgCorpus(c *Ctx) {
 			msgRoundTrip(c, fl, m)
 			if c.stats["known_F1"] == before {
 				c.Stat("F1_witness_passes")
+			}
+		}
+	}
+	// FB4: map entry whose key occurs as varint and then as fixed32 (dynamicpb panics)
+	if _, ok := find("goproto.proto.testeditions.TestAllTypes"); ok {
+		for _, mt := range msgAllTypes() {
+			if mt.Descriptor().FullName() == "goproto.proto.testeditions.TestAllTypes" {
+				fls := msgFlavoursOf(mt)
+				id := msgSchemaOf(c, mt.Descriptor())
+				for _, fl := range fls {
+					msgDecCase(c, fl, id, []byte{0xc2, 0x03, 0x07, 0x08, 0x01, 0x0d, 0, 0, 0, 0}, 0)
+				}
 			}
 		}
 	}
